@@ -63,10 +63,6 @@ Proof.
   - rewrite IH, <- app_assoc. replace (S pos + length r)%nat with (pos + S (length r))%nat by lia. reflexivity.
 Qed.
 
-Lemma undone_in_snoc L e k :
-  undone_in (L ++ [e]) k = undone_in L k || match e with OUndo j => Nat.eqb j k | _ => false end.
-Proof. unfold undone_in. rewrite existsb_app. cbn [existsb]. rewrite orb_false_r. reflexivity. Qed.
-
 (** appending a primitive entry leaves the validity of the others alone *)
 Lemma aitems_from_snoc_prim all e : (match e with OUndo _ => False | _ => True end) ->
   forall ops pos, aitems_from (all ++ [e]) ops pos = aitems_from all ops pos.
@@ -170,14 +166,16 @@ Ltac log_cbn :=
   cbn [s_nodes s_pods s_jobs s_queues s_log s_ncalls s_stuck put_pod put_node push set_nodes set_podsm set_jobs
        set_queues set_log set_ncalls set_stuck] in *.
 
-Lemma evict_log s pid s' : evict s pid = (s', true) ->
+Lemma evict_log s pid s' : releasing_in s pid = false -> evict s pid = (s', true) ->
   exists p nid, get_pod s pid = Some p /\ p_node p = Some nid
     /\ s_log s' = s_log s ++ [OEvict pid (p_status p) nid (p_groups p) (p_virt p)].
 Proof.
-  unfold evict. destruct (get_pod s pid) as [p|]; [|discriminate].
+  intros Nr. rewrite (evict_unrepaired _ _ Nr).
+  unfold evict_before_repair. destruct (get_pod s pid) as [p|]; [|discriminate].
   destruct (alookup (t_job (p_task p)) (s_jobs s)); [|discriminate].
   destruct (p_node p) as [nid|] eqn:Epn; [|discriminate].
   destruct (alookup nid (s_nodes s)) as [n|]; [|discriminate].
+  unfold evict_on.
   pose proof (update_status_frame s p Releasing) as (Fl & _).
   destruct (update_status s p Releasing) as [s1 ok]. cbn [fst] in Fl.
   destruct ok; cbn [negb]; [|discriminate].
@@ -272,20 +270,22 @@ Proof. reflexivity. Qed.
 
 (** for a well-formed command the specification's step appends the valid entries of the new log *)
 Lemma cmd_hstep fails stk s c hs :
-  log_cmd c = true -> wf_cmd any_task stk false s c = true -> LogOK (s_log s) -> s_stuck s = false ->
+  log_cmd c = true -> noop_cmd s c = false -> wf_cmd any_task stk false s c = true -> LogOK (s_log s) -> s_stuck s = false ->
   hcur hs = aitems (s_log s) -> hlen hs = length (s_log s) ->
   exists s' e, step_full fails s c = (s', [], true) /\ s_log s' = s_log s ++ [e] /\ s_stuck s' = false
     /\ LogOK (s_log s')
     /\ hstep no_job hs c (loc_of s c) = hs ++ [aitems (s_log s')].
 Proof.
-  intros Lc W OK Ks Hc Hl.
-  destruct (cmd_link_n fails stk s c Lc W OK Ks) as (s' & e & Es & Ks' & Ls & Ef & OK' & _).
+  intros Lc Nc W OK Ks Hc Hl.
+  destruct (cmd_link_n fails stk s c Lc Nc W OK Ks) as (s' & e & Es & Ks' & Ls & Ef & OK' & _).
   exists s', e. split; [exact Es|]. split; [exact Ls|]. split; [exact Ks'|]. split; [exact OK'|].
   destruct c as [pid|pid nid gs upd|pid nid gs|pid| | | | |]; try discriminate.
   - (* Evict *)
-    apply step_evict in Es; [|exact Ks]. destruct (evict_log _ _ _ Es) as (p & nd & Gp & Epn & Ls2).
+    cbn [noop_cmd] in Nc.
+    apply step_evict in Es; [|exact Ks]. destruct (evict_log _ _ _ Nc Es) as (p & nd & Gp & Epn & Ls2).
     rewrite Ls in Ls2. apply snoc_inj in Ls2. destruct Ls2 as [_ ->].
-    unfold hstep, loc_of. cbn [cmd_pod]. rewrite Gp. cbn [snd]. rewrite Hc, Hl, Ls.
+    rewrite (releasing_in_eq _ _ _ Gp) in Nc.
+    unfold hstep, loc_of. cbn [cmd_pod]. rewrite Gp. cbn [pl_releasing pl_groups]. rewrite Nc, Hc, Hl, Ls.
     rewrite aitems_snoc_prim by (exact OK || exact I). reflexivity.
   - (* Pipeline *)
     apply step_pipeline in Es; [|exact Ks].
@@ -301,7 +301,7 @@ Proof.
     assert (Nom : forall a b c0 d m, s_log s' = s_log s ++ [OPipe (p_id p) a b c0 d nid m] ->
                   hs ++ [hcur hs ++ [VPl false pid nid (hlen hs)]] = hs ++ [aitems (s_log s')]).
     { intros a b c0 d m E. rewrite E, Hc, Hl, Pid. rewrite aitems_snoc_prim by (exact OK || exact I). reflexivity. }
-    unfold hstep, loc_of. cbn [cmd_pod]. rewrite Gp. cbn [fst snd].
+    unfold hstep, loc_of. cbn [cmd_pod]. rewrite Gp. cbn [pl_node pl_groups].
     destruct (status_eqb (p_status p0) Pending) eqn:Est.
     + (* a Pending pod sits nowhere *)
       apply andb_true_iff in Wst. destruct Wst as [Wst Wnd].
@@ -394,8 +394,13 @@ Lemma hist_step fails s stk sn hist hs c :
 Proof.
   intros Oc W H Sn Hi. pose proof H as (Hl & OK & Ks & _). destruct Sn as (Sm & Se).
   destruct (HInv_cur _ _ Hi) as (Hc & Hn).
+  destruct (noop_cmd s c) eqn:Nc.
+  { (* Evict of a Releasing pod: no step in the history, nothing in the log *)
+    rewrite (noop_step fails s c Nc). cbn [fst]. destruct c as [pid| | | | | | | |]; try discriminate.
+    cbn [noop_cmd] in Nc. unfold hstep, loc_of. cbn [cmd_pod]. unfold releasing_in in Nc.
+    destruct (get_pod s pid) as [p|]; [|discriminate]. cbn [pl_releasing]. rewrite Nc. exact Hi. }
   destruct (log_cmd c) eqn:Lc.
-  - destruct (cmd_hstep fails stk s c hs Lc W OK Ks Hc Hn) as (s' & e & Es & Ls & _ & _ & Eh).
+  - destruct (cmd_hstep fails stk s c hs Lc Nc W OK Ks Hc Hn) as (s' & e & Es & Ls & _ & _ & Eh).
     unfold step. rewrite Es. cbn [fst]. rewrite Eh, Ls. apply HInv_snoc. exact Hi.
   - destruct c as [| | | | |cp| | |]; try discriminate.
     + unfold step, step_full. rewrite Ks. exact Hi.
@@ -522,6 +527,29 @@ Proof.
   change cs with (snd (s1, cs)). rewrite <- Ec. apply commit_sub3. exact OK.
 Qed.
 
+(** the still-valid steps of a well-formed open statement never hold two steps of the same kind
+    for one pod - in particular at most one eviction per pod, however often Evict was applied to it *)
+Definition coarse (k : ckind * positive) : bool * positive :=
+  (match fst k with KEvict => false | _ => true end, snd k).
+
+Lemma vkeys_coarse all : forall ops pos, vkeys all ops pos = map coarse (vkeys3 all ops pos).
+Proof.
+  induction ops as [|o r IH]; intros pos; cbn [vkeys vkeys3 map]; [reflexivity|].
+  rewrite map_app, IH. f_equal. destruct (op_valid all pos) as [[|]|]; try reflexivity. destruct o; reflexivity.
+Qed.
+
+Theorem valid_steps_once fails S prog c :
+  s_log S = [] -> s_stuck S = false -> forallb open_cmd prog = true ->
+  wf_from any_task fails [] false S (prog ++ [c]) = true ->
+  NoDup (expect_calls (valid_steps fails S prog)).
+Proof.
+  intros L K Op W. destruct (valid_steps_log fails S prog c L K Op W) as (Ev & OK & _).
+  destruct (run_once_init fails S prog c L K Op W) as (_ & On & _ & _).
+  rewrite Ev. unfold expect_calls, aitems. rewrite <- (vkeys3_aitems _ OK) by lia.
+  apply (NoDup_map_inv coarse). rewrite <- vkeys_coarse.
+  apply vkeys_nodup; [exact OK|exact On|intros q; reflexivity].
+Qed.
+
 (* ------------------------------------------------------------------ 5. un-eviction is a rollback of the eviction *)
 
 Lemma op_valid_snoc_prim L e q : LogOK L -> LogOK (L ++ [e]) -> (match e with OUndo _ => False | _ => True end) ->
@@ -531,20 +559,21 @@ Proof.
   rewrite (valid_persistent _ q OK Lt), undone_in_snoc. destruct e; try contradiction; rewrite orb_false_r; reflexivity.
 Qed.
 
-(** [s'] is [s] after a well-formed Evict of [pid]; on any related state whose log is that of [s'],
-    a well-formed Unevict of [pid] undoes exactly that eviction and gives a state related to [s] *)
+(** [s'] is [s] after a well-formed Evict of [pid], a pod that is not Releasing in [s] (the Evict is
+    not ignored) and therefore has no valid evict entry; on any related state whose log is that of
+    [s'], a well-formed Unevict of [pid] undoes exactly that eviction and gives a state related to [s] *)
 Lemma unevict_back fails stk stk' s pid a :
-  wf_cmd any_task stk false s (Evict pid) = true -> LogOK (s_log s) -> s_stuck s = false ->
+  wf_cmd any_task stk false s (Evict pid) = true -> releasing_in s pid = false ->
+  no_valid_evict (s_log s) pid = true -> LogOK (s_log s) -> s_stuck s = false ->
   let s' := fst (step fails s (Evict pid)) in
   srel neq s' a -> s_log a = s_log s' -> s_stuck a = false ->
   wf_cmd any_task stk' false a (Unevict pid) = true ->
   srel neq s (fst (step fails a (Unevict pid))).
 Proof.
-  intros W OK Ks s' Sr La Ka Wu.
-  destruct (wf_evict_facts any_task stk s pid W) as (p0 & j0 & nid1 & n1 & _ & _ & _ & _ & _ & Nv & _).
+  intros W Nr Nv OK Ks s' Sr La Ka Wu.
   destruct (link_evict neq any_task neq_sym neq_trans neq_pods neq_set_pods
               (fun a b t _ => neq_add a b t) (fun a b t _ => neq_remove a b t) (fun a t _ => neq_rem_add a t)
-              (fun a t _ => neq_add_rem a t) (fun t s g => eq_refl) stk s pid W)
+              (fun a t _ => neq_add_rem a t) (fun t s g => eq_refl) stk s pid W Nr)
     as (s1 & p & nid & Ev & Gp & Ls & Ks1 & Back).
   assert (Es' : s' = s1).
   { unfold s', step, step_full. rewrite Ks, Ev. reflexivity. }
@@ -581,18 +610,19 @@ Proof.
   cbn [app wf_from] in *. apply andb_true_iff in W. destruct W as [Wc Wr]. rewrite Wc. cbn [andb]. eapply IH. exact Wr.
 Qed.
 
-(** Evict p ... Unevict p, where what happened in between left nothing behind (the log is again
-    the one the eviction produced and the session is related to the one it produced: nothing, only
-    checkpoints, or steps that were rolled back): the session is related to the one before the
-    eviction *)
+(** Evict p ... Unevict p, where p is not Releasing when it is evicted (the Evict is not ignored)
+    and what happened in between left nothing behind (the log is again the one the eviction
+    produced and the session is related to the one it produced: nothing, only checkpoints, or
+    steps that were rolled back): the session is related to the one before the eviction *)
 Theorem unevict_restores fails S prog mid pid :
   s_log S = [] -> s_stuck S = false -> forallb open_cmd (prog ++ Evict pid :: mid) = true ->
   wf_from any_task fails [] false S ((prog ++ Evict pid :: mid) ++ [Unevict pid]) = true ->
+  releasing_in (Session.run fails S prog) pid = false ->
   s_log (Session.run fails S (prog ++ Evict pid :: mid)) = s_log (Session.run fails S (prog ++ [Evict pid])) ->
   srel neq (Session.run fails S (prog ++ [Evict pid])) (Session.run fails S (prog ++ Evict pid :: mid)) ->
   srel neq (Session.run fails S prog) (Session.run fails S ((prog ++ Evict pid :: mid) ++ [Unevict pid])).
 Proof.
-  intros L K Op W La Sr.
+  intros L K Op W Nr La Sr.
   assert (Op1 : forallb open_cmd prog = true).
   { rewrite forallb_app in Op. apply andb_true_iff in Op. apply Op. }
   assert (W1 : wf_from any_task fails [] false S (prog ++ [Evict pid]) = true).
@@ -604,15 +634,19 @@ Proof.
     as (_ & _ & Ka & hist2 & stk2 & sn2 & _ & _ & Wc2); [rewrite L; apply HInv_nil|exact W|].
   rewrite (run_app fails S (prog ++ Evict pid :: mid) [Unevict pid]). cbn [Session.run fold_left].
   rewrite (run_app fails S prog [Evict pid]) in La, Sr. cbn [Session.run fold_left] in La, Sr.
-  exact (unevict_back fails stk1 stk2 _ pid _ Wc1 OK Ks Sr La Ka Wc2).
+  assert (Nv : no_valid_evict (s_log (Session.run fails S prog)) pid = true).
+  { apply (run_no_valid_evict fails S prog pid L K Op1 W1 Nr).
+    destruct (wf_evict_facts any_task stk1 _ pid Wc1 Nr) as (p0 & j0 & nid1 & n1 & _ & _ & _ & _ & _ & Hp & _). exact Hp. }
+  exact (unevict_back fails stk1 stk2 _ pid _ Wc1 Nr Nv OK Ks Sr La Ka Wc2).
 Qed.
 
 Theorem unevict_restores_adjacent fails S prog pid :
   s_log S = [] -> s_stuck S = false -> forallb open_cmd prog = true ->
   wf_from any_task fails [] false S (prog ++ [Evict pid; Unevict pid]) = true ->
+  releasing_in (Session.run fails S prog) pid = false ->
   srel neq (Session.run fails S prog) (Session.run fails S (prog ++ [Evict pid; Unevict pid])).
 Proof.
-  intros L K Op W.
+  intros L K Op W Nr.
   replace (prog ++ [Evict pid; Unevict pid]) with ((prog ++ Evict pid :: []) ++ [Unevict pid]) in * by (rewrite <- app_assoc; reflexivity).
   apply unevict_restores; try assumption.
   - rewrite forallb_app, Op. reflexivity.
@@ -777,6 +811,7 @@ Proof.
   destruct (alookup (t_job (p_task p)) (s_jobs s)); [|apply SS_refl].
   destruct (p_node p) as [nid|]; [|apply SS_refl].
   destruct (alookup nid (s_nodes s)) as [n|]; [|apply SS_refl].
+  destruct (status_eqb (p_status p) Releasing); [apply SS_refl|]. unfold evict_on.
   pose proof (ss_update_status' s s pid p p Releasing (SS_refl s) K G eq_refl) as U.
   destruct (update_status s p Releasing) as [s1 ok]. cbn [fst] in U.
   destruct ok; cbn [negb fst]; [|apply SS_refl].
@@ -1022,8 +1057,10 @@ Proof.
   pose proof (ss_step fails s c K Oc) as S.
   assert (F' : Forall (Ready (fst (step fails s c))) (s_log s)).
   { rewrite Forall_forall in *. intros o Ho. eapply Ready_SS; [exact S|]. apply F. exact Ho. }
+  destruct (noop_cmd s c) eqn:Nc.
+  { rewrite (noop_step fails s c Nc) in *. exact F. }
   destruct (log_cmd c) eqn:Lc.
-  - destruct (cmd_link_n fails stk s c Lc W OK Ks) as (s' & e & Es & _ & Ls & Ef & _).
+  - destruct (cmd_link_n fails stk s c Lc Nc W OK Ks) as (s' & e & Es & _ & Ls & Ef & _).
     pose proof (cmd_ready fails stk s c s' e Lc W Ks K Es Ls Ef) as Re.
     unfold step in *. rewrite Es in *. cbn [fst] in *. rewrite Ls. apply Forall_app. split; [exact F'|].
     constructor; [|constructor]. eapply Ready_SS; [exact S|exact Re].
@@ -1214,16 +1251,35 @@ Theorem log_spec_nonvacuous :
      = [AEvict 6; APipe 8 (Some 1%positive) []; APipe 6 (Some 2%positive) []].
 Proof. vm_compute. repeat split. Qed.
 
+(** Evict applied again to an evicted pod: the history holds one eviction, Commit emits one; with
+    the second Evict between a checkpoint and its rollback; followed by Unevict (no valid step is
+    left, nothing is emitted) *)
+Theorem log_spec_evict_again :
+  valid_steps nofail w3_init [Evict 3; Evict 3] = [VEv 3 [] 0]
+  /\ valid_steps nofail w3_init [Evict 3; Evict 3; Evict 3] = [VEv 3 [] 0]
+  /\ valid_steps nofail w3_init [Evict 3; Checkpoint; Evict 3; Rollback 1] = [VEv 3 [] 0]
+  /\ valid_steps nofail w3_init [Evict 3; Evict 3; Unevict 3] = []
+  /\ wf_from any_task nofail [] false w3_init ([Evict 3; Evict 3; Evict 3] ++ [Commit]) = true
+  /\ snd (step nofail (Session.run nofail w3_init [Evict 3; Evict 3; Evict 3]) Commit) = [AEvict 3]
+  (* pod 5 of W1 is terminating in the snapshot: evicting it is well-formed and changes nothing *)
+  /\ option_map (fun p => (p_status p, p_virt p)) (get_pod w1_init 5) = Some (Releasing, false)
+  /\ Session.run nofail w1_init [Evict 5] = w1_init
+  /\ wf_from any_task nofail [] false w1_init ([Evict 5; Checkpoint; Evict 3; Evict 5; Evict 3] ++ [Commit]) = true
+  /\ valid_steps nofail w1_init [Evict 5; Checkpoint; Evict 3; Evict 5; Evict 3] = [VEv 3 [16%positive] 0]
+  /\ snd (step nofail (Session.run nofail w1_init [Evict 5; Checkpoint; Evict 3; Evict 5; Evict 3]) Commit) = [AEvict 3].
+Proof. vm_compute. repeat split. Qed.
+
 Definition wl_mid : list cmd := [Checkpoint; Evict 6%positive; Rollback 1%nat].
 
 (** [unevict_restores] with something in between: the eviction of pod 4, a checkpoint, another
     eviction, its rollback, then the un-eviction of pod 4 *)
 Theorem unevict_restores_rolled_back_witness :
   wf_from any_task nofail [] false w10_init (([] ++ Evict 4 :: wl_mid) ++ [Unevict 4]) = true
+  /\ releasing_in w10_init 4 = false
   /\ srel neq w10_init (Session.run nofail w10_init (([] ++ Evict 4 :: wl_mid) ++ [Unevict 4])).
 Proof.
   assert (W : wf_from any_task nofail [] false w10_init (([] ++ Evict 4 :: wl_mid) ++ [Unevict 4]) = true) by (vm_compute; reflexivity).
-  split; [exact W|].
+  split; [exact W|]. split; [vm_compute; reflexivity|].
   apply (unevict_restores nofail w10_init [] wl_mid 4%positive); try (vm_compute; reflexivity).
   destruct (rollback_restores_partial nofail w10_init [Evict 4%positive; Checkpoint; Evict 6%positive] 1%nat) as (x & Ex & Sr);
     try (vm_compute; reflexivity).
